@@ -9,7 +9,8 @@ commands implies for a fresh reader of the database, under the reading of DESIGN
 * undeclaring removes the declaration and every tag on it; a conflicting redeclaration without force and
   without a tag is refused; with a tag only the tag is assigned; refusals and dry runs change nothing;
 * every command sees the whole database (every stack, the native and the fallback flavor).  This is where
-  the reference is deliberately *not* the code: the code reads through the product cache.
+  the reference is deliberately *not* the code: the code reads through the product cache (which, since the
+  repair of D16, shows the same).
 
 Nothing here looks at the Lean model or at eups.  State: decl[(si, n, v, f)] = (dir, table),
 tags[(si, t, n, f)] = v."""
